@@ -83,7 +83,10 @@ inductive Outcome where
 
 def selfIdx (c : Ctx) : UInt8 := c.selfs.headD 0
 
-/-- the six textual copies of `shouldAcceptMessage` -/
+/-- the six textual copies of `shouldAcceptMessage`.  (gjkr's two accusation states use
+    `shouldAcceptAccusationMessage`: same conjuncts, with "operating" evaluated on the snapshot
+    `accusers = OperatingMemberIndexes()` taken by `Initiate` before the member's own verification;
+    the group of the model is that snapshot.) -/
 def shouldAccept (addr : Nat → Nat) (c : Ctx) (m : Msg) : Bool :=
   !(m.idx == selfIdx c) && isValidMembership c.ops m.idx (addr m.netKey) && c.group.isOperating m.idx
 
@@ -185,5 +188,53 @@ def holdsMv (ops : List Nat) (idx : UInt8) (a : Nat) (res : Bool) : Bool :=
 /-- `wallet.membersByOperator(leader)[0]` : `MemberIndex(i+1)` of the leader's first seat -/
 def firstSeat (ops : List Nat) (leader : Nat) : Option UInt8 :=
   (positions ops leader).head?.map (fun p => UInt8.ofNat (p + 1))
+
+/-! ## One announcement window / one follower routine over a whole history
+
+Admission is a per-message predicate: neither loop keeps state that may influence admission of a later
+message (the announcer only adds to its ready set, the follower only appends faults). -/
+
+/-- insert into a strictly increasing list (by `toNat`), dropping duplicates -/
+def insertSorted (x : UInt8) : List UInt8 → List UInt8
+  | [] => [x]
+  | y :: ys => if x.toNat < y.toNat then x :: y :: ys else if x = y then y :: ys else y :: insertSorted x ys
+
+def sortDedup (xs : List UInt8) : List UInt8 := xs.foldr insertSorted []
+
+/-- `Announce`: sorted ready list = own index and the claimed index of every admitted announcement -/
+def readyList (addr : Nat → Nat) (c : Ctx) (ms : List Msg) : List UInt8 :=
+  sortDedup (selfIdx c :: (ms.filter (fun m => admitMsg addr .announcer c m == .stored)).map (·.idx))
+
+/-- monitor for an observed ready list: own index present, every other ready index was announced in
+    this window by a key that controls it (with the right protocol and session). -/
+def holdsReady (addr : Nat → Nat) (c : Ctx) (ms : List Msg) (ready : List UInt8) : Bool :=
+  ready.contains (selfIdx c) &&
+  ready.all (fun i => i == selfIdx c || ms.any (fun m => m.idx == i && holds addr .announcer c m .stored))
+
+/-- `executeFollowerRoutine` over a history: the acted-on messages with their positions, up to and
+    including the first accepted proposal -/
+def followerTrace (addr : Nat → Nat) (c : Ctx) : List Msg → Nat → List (Outcome × Nat)
+  | [], _ => []
+  | m :: ms, pos =>
+    match admitMsg addr .follower c m with
+    | .dropped => followerTrace addr c ms (pos + 1)
+    | .stored => [(.stored, pos)]
+    | o => (o, pos) :: followerTrace addr c ms (pos + 1)
+
+/-- monitor for an observed follower run: every recorded fault is justified by some message of the
+    history whose sender controls the claimed seat in this window and wallet; a returned proposal is
+    the one of message `pos`, sent by the leader's own seat with an allowed action. -/
+def holdsTrace (addr : Nat → Nat) (c : Ctx) (ms : List Msg) (faults : List Outcome) (accepted : Option Nat) : Bool :=
+  faults.all (fun o => (o == .faultImpersonation || o == .faultMistake) &&
+      ms.any (fun m => holds addr .follower c m o)) &&
+  (match accepted with
+   | none => true
+   | some pos => match ms[pos]? with
+     | some m => holds addr .follower c m .stored
+     | none => false)
+
+def traceFaults (t : List (Outcome × Nat)) : List Outcome := (t.filter (fun e => e.1 != .stored)).map (·.1)
+
+def traceAccepted (t : List (Outcome × Nat)) : Option Nat := (t.find? (fun e => e.1 == .stored)).map (·.2)
 
 end KeepVerif.C12
